@@ -1,4 +1,4 @@
-import ApdVerif.Model.Trans
+import ApdVerif.Model.TransLog
 /-!
 # Dispatch from the protocol's operation names to the model's functions
 -/
@@ -29,6 +29,20 @@ def runCtxOp (op : String) (c : Ctx) (x y : Dec) (iarg : Int) : Option Out :=
   | "ln" | "log10" => logSpecials c x
   | "pow" => powIntOp c x y
   | _ => none
+
+/-- run a context operation with the decision tape recorded during the real call (Exp, Ln, Log10, Pow);
+`none` = no model / the tape does not fit the model's control flow / tape entries left over -/
+def runCtxOpT (op : String) (c : Ctx) (x y : Dec) (iarg : Int) (tape : Tape) : Option Out :=
+  let fin : Option (Out × Tape) → Option Out := fun r =>
+    match r with
+    | some (o, []) => some o
+    | _ => none
+  match op with
+  | "exp" => fin (expT c x tape)
+  | "ln" => fin (lnT c x tape)
+  | "log10" => fin (log10T c x tape)
+  | "pow" => fin (powT c x y tape)
+  | _ => runCtxOp op c x y iarg
 
 /-- operations judged by their specification oracle only (no executable model of the float-steered series yet) -/
 def oracleOnlyOps : List String := ["exp", "ln", "log10", "pow"]
